@@ -79,6 +79,14 @@ def _case(draw, tier):
             if sname in w["params"] or sname in w.get("wait_for", []) or sname in w.get("emit", []):
                 continue
             w.setdefault("wait_for", []).append(sname)
+    # a function node's signal may be RENAMED through with_outputs; its waiters wait for the new name
+    for x in topo:
+        if x.get("emit") and x["k"] == "func" and prob(draw, 0.3):
+            m = {o: o + "_r" for o in x["emit"]}
+            x["renames"] = [{"kind": "outputs", "map": m}]
+            for w in topo:
+                if w.get("wait_for"):
+                    w["wait_for"] = [m.get(q, q) for q in w["wait_for"]]
     nodes = list(topo)
     # an emitting gate with a waiter
     if prob(draw, 0.3):
@@ -115,6 +123,15 @@ def strategy(tier):
     return _case(tier)
 
 
+def _emit(n):
+    """The signal names a node emits as the rest of the graph sees them (after with_outputs renames of the signal)."""
+    m = {}
+    for st_ in n.get("renames", []):
+        if st_.get("kind") == "outputs":
+            m.update(st_["map"])
+    return [m.get(o, o) for o in n.get("emit", [])]
+
+
 def _steps(events):
     """Assign a superstep index to every top-level node event (async observation: all starts of a step precede its ends)."""
     from hypergraph.events.types import NodeEndEvent, NodeErrorEvent, NodeStartEvent, RunStartEvent
@@ -143,7 +160,7 @@ def monitor(tag, events, nodes, with_steps, stats, supplied=()):
     """Safety: each start of a waiter is preceded, since its previous start, by a completed production of every awaited name."""
     producers = {}
     for n in nodes:
-        for o in n.get("outs", []) + n.get("emit", []):
+        for o in n.get("outs", []) + _emit(n):
             producers.setdefault(o, set()).add(n["name"])
     waiters = {n["name"]: list(n.get("wait_for", [])) for n in nodes if n.get("wait_for")}
     # a name the caller supplied (the answer to a paused interrupt) exists from the start of that run: the human produced it
@@ -195,7 +212,7 @@ def _part_a(case, ev):
     # a waiter runs only if a producer of every awaited name runs
     emitters = {}
     for n in nodes:
-        for o in n.get("emit", []) + n.get("outs", []):
+        for o in _emit(n) + n.get("outs", []):
             emitters.setdefault(o, []).append(n["name"])
     runs = {n["name"] for n in topo if args.get(n["name"]) is not None} | {"gsig"}
     changed = True
